@@ -69,6 +69,42 @@ ROUND2 = {
              "missed: 2-d arrays were C-ordered only; Fortran-ordered, transposed inputs and transposed views added"),
 }
 
+ROUND3 = {
+    "C01c": ("get_mask_with_key_joins resets the recursion guard only when a joined dataset could evaluate the selection (try/finally 'simplified')",
+             "two datasets joined by key, an evaluation on one of them that ends in IncompatibleAttribute, then a composite evaluated across the join from the other side",
+             "missed: C01 had no key-joined dataset (C11 has the guard check); composites are now also read from a dataset joined by key, before and after failed evaluations in every order"),
+    "C02c": ("_load_component_link drops the stored inverse for every link (`len(frm) >= 1` instead of `> 1`)",
+             "a ComponentLink with using= and an explicit inverse= added directly to the collection, observed from the dataset on the `to` side after a restore",
+             "caught"),
+    "C04c": ("IndexedData.indices builds its slice state from slice(i, i+1): empty for i == -1, so histograms of the last plane are all zero",
+             "an IndexedData whose indices contain exactly -1, then compute_histogram",
+             "missed: indices were never negative; negative forms added in C04 and C10"),
+    "C05c": ("_set_externally_derivable_components' 'unchanged' shortcut compares the links' functions instead of the link objects",
+             "the link through which an attribute is derived is replaced, in one link-manager update, by a link from another source with the same function (two identity links)",
+             "missed: links were only replaced by remove-then-add with different functions; a second source, identity links and set_links / delayed / list forms added (C03 caught it as it stood)"),
+    "C07c": ("Hub._find_handlers falls back to the listener's subscription to a parent class when the most specific subscription's filter rejects the message",
+             "one listener subscribed to two classes of one inheritance chain, the more specific one with a filter that rejects the message",
+             "caught"),
+    "C11c": ("concatenate_arrays gives every key column of an n-n join the first column's dtype",
+             "an n-n join whose later key column is wider / of another kind than the first, and keys that differ only in the part cut off",
+             "caught"),
+    "C14c": ("ComponentLink.compute reshapes a differently-shaped function result to the full shape instead of the inputs' common shape",
+             "a function link returning e.g. a ravelled result whose inputs are all broadcast views (pixel / world attributes), >=2-d data",
+             "caught"),
+    "C16c": ("_set_externally_derivable_components' 'unchanged' shortcut compares each old link with itself",
+             "the collection's links are replaced in one go (set_links) by links between the same attributes with another transformation, then a buffer is requested",
+             "missed: links were fixed within a request sequence; a third of the sequences now replace the links once (set_links / delayed / one by one)"),
+    "C18c": ("ImageViewerState._reference_data_changed switches off the x picker's pixel flag twice and never the y picker's",
+             "an image viewer whose reference first has no world coordinates and then moves to a dataset that has them",
+             "missed: image datasets had no coordinates and the axis pickers' choices were not compared; both added, plus focused histories that move the reference"),
+    "C19c": ("hdf5_writer skips the masking when the subset selects nothing (`mask.any()` where `not mask.all()` was meant)",
+             "an empty subset exported to HDF5 (table or image)",
+             "caught"),
+    "C20c": ("view_shape converts a list view to a tuple",
+             "a bare Python list of positions passed as the view",
+             "missed: views were tuples / arrays only; bare lists, bare arrays and lists of booleans added"),
+}
+
 sweep = {}
 if len(sys.argv) > 1 and os.path.exists(sys.argv[1]):
     for line in open(sys.argv[1]):
@@ -78,7 +114,10 @@ if len(sys.argv) > 1 and os.path.exists(sys.argv[1]):
 
 root = os.path.join(os.path.dirname(os.path.abspath(__file__)), "..", "seeded")
 rows = []
-for name, (change, needs, first) in sorted(ROUND2.items()):
+ALL = dict(ROUND2)
+ALL.update(ROUND3)
+rows3 = []
+for name, (change, needs, first) in sorted(ALL.items()):
     d = os.path.join(root, name)
     if not os.path.isdir(d):
         print("no directory for", name)
@@ -86,7 +125,7 @@ for name, (change, needs, first) in sorted(ROUND2.items()):
     rc, sig = sweep.get(name, (None, ""))
     meta = {
         "breaks": name[:3],
-        "round": 2,
+        "round": 3 if name in ROUND3 else 2,
         "change": change,
         "needs": needs,
         "first_version_of_the_check": first,
@@ -101,10 +140,12 @@ for name, (change, needs, first) in sorted(ROUND2.items()):
     with open(os.path.join(d, "meta.json"), "w") as f:
         json.dump(meta, f, indent=1)
     print(name, rc, sig)
-    rows.append("| %s | %s (%s) | %s | %s |" % (name, change, needs, ("`%s`" % sig) if sig else "-", first))
+    (rows3 if name in ROUND3 else rows).append("| %s | %s (%s) | %s | %s |" % (name, change, needs, ("`%s`" % sig) if sig else "-", first))
 
 design = os.path.join(root, "..", "DESIGN.md")
 text = open(design).read()
 a, b = text.index("<!-- ROUND2-BEGIN -->"), text.index("<!-- ROUND2-END -->")
 text = text[:a] + "<!-- ROUND2-BEGIN -->\n" + "\n".join(rows) + "\n" + text[b:]
+a, b = text.index("<!-- ROUND3-BEGIN -->"), text.index("<!-- ROUND3-END -->")
+text = text[:a] + "<!-- ROUND3-BEGIN -->\n" + "\n".join(rows3) + "\n" + text[b:]
 open(design, "w").write(text)
